@@ -127,7 +127,8 @@ def _worker(arg):
             for form in ("dense", "sparse", "pixels"):
                 kw = dict(balance=bal, chunksize=case["chunk"])
                 if dw is not None:
-                    kw["divisive_weights"] = dw
+                    # the flag as Python bool, numpy bool (what h5py hands back for the attribute `cooler balance` writes) or 0/1
+                    kw["divisive_weights"] = [dw, np.bool_(dw), int(dw)][case.get("flag_type", 0)]
                 if form == "sparse":
                     kw["sparse"] = True
                 if form == "pixels":
@@ -315,7 +316,8 @@ def _fworker(arg):
             for form in ("dense", "sparse", "pixels"):
                 kw = dict(balance=bal, chunksize=case["chunk"])
                 if dw is not None:
-                    kw["divisive_weights"] = dw
+                    # the flag as Python bool, numpy bool (what h5py hands back for the attribute `cooler balance` writes) or 0/1
+                    kw["divisive_weights"] = [dw, np.bool_(dw), int(dw)][case.get("flag_type", 0)]
                 if form == "sparse":
                     kw["sparse"] = True
                 if form == "pixels":
@@ -413,6 +415,8 @@ def gen_float_cases(ctx, base):
         out.append({"n": n, "pixels": pix, "symm": symm, "weights": cols, "chunk": [1, 2, 10 ** 7][k % 3], "float_only": True,
                     "wdtype": {name: dts[(k + t) % len(dts)] for t, name in enumerate(NAMES)},
                     "options": [list(grid[(k * 4 + t * 3) % len(grid)]) for t in range(6)]})
+    for k, c in enumerate(out):
+        c["flag_type"] = k % 3
     return out
 
 
